@@ -66,10 +66,19 @@ func runC03(c *Ctx) {
 			{Name: "nil without sync", Match: an.LastResultNil, Guard: "!mustSync || (raft.IsEmptyHardState(p0) && len(p1) == 0)"},
 		}, 6)
 		r.StoreValues("C03-P3", u, an.LocalStore("mustSync"), []string{"raft.MustSync(p0, recv.state, len(p1))"}, 1)
-		r.StoreValues("C03-P3", u, an.LocalStore("fsync"), []string{"true", "(!raft.IsEmptyHardState(p0) && ((p0.Vote != recv.state.Vote) || (p0.Term != recv.state.Term)))"}, 2)
-		r.Order("C03-P3", u, an.Call("wal.(*WAL).sync"), []an.M{an.LocalStore("fsync").Where("= true", func(u *an.Unit, s *an.Site) bool { return s.RHS != nil && u.C.Term(s.RHS) == "true" })},
-			an.OrderOpts{Assume: "!recv.optimizedFsync", Min: 1})
-		r.ArgValues("C03-P3", u, an.Call("wal.(*WAL).sync"), 0, []string{"fsync"}, 1)
+		// the fsync decision handed to sync, whatever its arrangement (a flag overridden in an if, one expression): a real
+		// fsync unless the optimized mode is on, and even then whenever the vote or the term changes
+		wantSync := c.W.Parse("!recv.optimizedFsync || (!raft.IsEmptyHardState(p0) && (p0.Vote != recv.state.Vote || p0.Term != recv.state.Term))")
+		for _, s := range u.Match(an.Call("wal.(*WAL).sync")) {
+			got, ok := boolValueAt(u, s.Call.Args[0], s)
+			if !ok {
+				r.Unknown("C03-P3", u.Name+": the fsync decision handed to sync", u.Pos(s.Pos), "the argument is neither an expression nor a flag with simple conditional overrides")
+				continue
+			}
+			fw, bw := flow.Implies(got, wantSync), flow.Implies(wantSync, got)
+			r.Check("C03-P3", u.Name+": sync is told to fsync iff the optimized mode is off or the vote/term changed", u.Pos(s.Pos),
+				fw.Holds && bw.Holds && fw.Undecided == "" && bw.Undecided == "", "decision: "+got.String())
+		}
 		saved := []an.M{an.Call("wal.(*WAL).saveState")}
 		r.Order("C03-P3", u, an.Call("wal.(*WAL).sync", "wal.(*WAL).cut"), saved, an.OrderOpts{Success: an.NilErr, Min: 2})
 		r.ArgValues("C03-P3", u, an.Call("wal.(*WAL).saveEntry"), 0, []string{"&p1[i]"}, 1)
